@@ -12,6 +12,12 @@ elements and on the insertion history for colliding elements).  A `V` is therefo
 holding "the same value" hold two `V`s related by `Sim` (equal up to permutation of the children of
 every set/frozenset node).  The hash pre-image of a value is `(tag, laid-out tree)`; SHA-512 and the
 byte format of pickle are outside the model.
+
+Which proxy hashes a value: `TypeRegistry.get_value` looks the value's type up along its MRO
+(`_get_proxy_type`), so an instance of a SUBCLASS of a registered type is hashed by that type's proxy: a
+`class Tags(set)` value goes to `Set.get_hash` exactly like an exact `set` (`sorted(value)` is a plain list, so
+the class does not even enter the pre-image), while subclasses of list / dict / tuple / frozenset / str / int have
+no registered proxy and are pickled as laid out (`copyreg` writes the class by reference and `builtin(value)`).
 Core Lean only.
 -/
 namespace RedunModel.ValueHash
@@ -29,6 +35,7 @@ inductive V where
   | set (xs : List V)               -- iteration order
   | fset (xs : List V)              -- iteration order
   | obj (cls : String) (xs : List V) -- dataclass instance: class by reference, `__dict__` values in field order
+  | sub (cls : String) (base : V)    -- instance of a SUBCLASS `cls` of a builtin type; `base` = `builtin(value)` as laid out
   deriving Repr, Inhabited
 
 /-! ### Python's `<` / `==` on the values that can be set elements, as far as `sorted(set)` needs them -/
@@ -62,6 +69,8 @@ mutual
     | .tuple xs, .tuple ys => pyCmpL xs ys
     | .float _, _ => .unknown
     | _, .float _ => .unknown
+    | .sub _ _, _ => .unknown
+    | _, .sub _ _ => .unknown
     | .fset _, .fset _ => .unknown
     | .obj _ _, .obj _ _ => .unknown
     | .list _, _ => .unknown
@@ -102,6 +111,7 @@ def kind : V → Kind
   | .list _ => .unhashable
   | .dict _ _ => .unhashable
   | .set _ => .unhashable
+  | .sub _ _ => .unhashable       -- as a set element: comparisons of subclass instances are not modelled
 
 /-! ### `sorted` -/
 
@@ -177,7 +187,18 @@ def getHash (H : Pre → Nat) : V → HashRes
     | .ok l => .ok (.valueSet l)
     | .typeError => .ok (.valueSet (isort (ltByHash H) xs))
     | .unspecified => .unspecified
+  | .sub _ (.set xs) =>       -- MRO walk: a subclass of `set` is hashed by the `Set` proxy
+    match pySorted xs with
+    | .ok l => .ok (.valueSet l)
+    | .typeError => .ok (.valueSet (isort (ltByHash H) xs))
+    | .unspecified => .unspecified
   | v => .ok (.value v)
+
+/-- the values that reach the `Set` proxy: an exact `set`, or an instance of a subclass of `set` (MRO walk) -/
+def isSetLike : V → Bool
+  | .set _ => true
+  | .sub _ (.set _) => true
+  | _ => false
 
 /-! ### the `data` path: what the backend records
 
@@ -193,6 +214,7 @@ def serialize (v : V) : V := v
 def getHashData (H : Pre → Nat) (v : V) (data : Option V) : HashRes :=
   match v, data with
   | .set xs, _ => getHash H (.set xs)
+  | .sub c (.set xs), _ => getHash H (.sub c (.set xs))
   | _, some d => .ok (.value d)
   | w, Option.none => getHash H w
 
@@ -211,6 +233,7 @@ mutual
     | .set _ => False
     | .fset _ => False
     | .obj _ xs => SetFrees xs
+    | .sub _ b => SetFree b
   def SetFrees : List V → Prop
     | [] => True
     | x :: xs => SetFree x ∧ SetFrees xs
@@ -226,6 +249,7 @@ mutual
     | .set xs => xs.length ≤ 1 ∧ Rigids xs
     | .fset xs => xs.length ≤ 1 ∧ Rigids xs
     | .obj _ xs => Rigids xs
+    | .sub _ b => Rigid b
   def Rigids : List V → Prop
     | [] => True
     | x :: xs => Rigid x ∧ Rigids xs
@@ -246,6 +270,7 @@ mutual
     | set {xs zs ys} : xs.Perm zs → Sims zs ys → Sim (.set xs) (.set ys)
     | fset {xs zs ys} : xs.Perm zs → Sims zs ys → Sim (.fset xs) (.fset ys)
     | obj (c) {xs ys} : Sims xs ys → Sim (.obj c xs) (.obj c ys)
+    | sub (c) {a b} : Sim a b → Sim (.sub c a) (.sub c b)
   inductive Sims : List V → List V → Prop where
     | nil : Sims [] []
     | cons {x y xs ys} : Sim x y → Sims xs ys → Sims (x :: xs) (y :: ys)
